@@ -76,3 +76,52 @@ void h_btraits(void){
   OBS(r); OBS(mask); OBS(rdim); OBS(rsize); OBS(t[3]); OBS(t[1]);
   REACHED();
 }
+
+/* tile: NumPy pads the shorter of (shape, reps) with leading ones; result dim = max(dim, len(reps)), extent = shape * reps. TILEK: 0 bounded-dim operand (dim 1..3) with 4 fixed reps
+ * (longer than the dim bound), 1 the same with 3 reps, 2 hybrid 2-d operand with a bounded-length reps list of 1..4 entries */
+#ifndef TILEK
+#define TILEK 0
+#endif
+void h_tile_traits(void){
+  u64 shape[3] = {1, 1, 1}, reps[4] = {1, 1, 1, 1}, dim, nreps, t[9] = {NA, NA, NA, NA, NA, NA, NA, NA, NA}, rt[6] = {0}; u32 data[16];
+#if TILEK == 2
+  dim = 2; nreps = in_u64(1, 4); shape[0] = in_u64(1, MAXE); shape[1] = in_u64(1, MAXE); ASSUME(shape[0] * shape[1] <= 16);
+#else
+  dim = in_u64(1, 3); nreps = TILEK == 0 ? 4 : 3; for (int i = 0; i < 3; i++){ shape[i] = in_u64(1, MAXE); if ((u64)i >= dim) shape[i] = 1; } ASSUME(shape[0] * shape[1] * shape[2] <= 16);
+#endif
+  for (int i = 0; i < 4; i++){ reps[i] = in_u64(1, 2); if ((u64)i >= nreps) reps[i] = 1; }
+  in_data(data, 16);
+  u64 nd = dim > nreps ? dim : nreps, ex[4];
+  for (u64 i = 0; i < 4; i++) if (i < nd){ u64 si = i + dim >= nd ? shape[i + dim - nd] : 1, ri = i + nreps >= nd ? reps[i + nreps - nd] : 1; ex[i] = si * ri; }
+  int r = TILEK == 0 ? k_trt_tile4_b3(shape, dim, data, reps, t, rt) : TILEK == 1 ? k_trt_tile3_b3(shape, dim, data, reps, t, rt) : k_trt_tile_sv_h2(shape, nreps, data, reps, t, rt);
+  ASSERT(r == 1, "the tile view exists");
+  u64 rdim = rt[0], rsize = rt[1], prod = 1;
+  ASSERT(rdim == nd, "run-time dim == max(dim, len(reps)) (NumPy)");
+  for (u64 i = 0; i < 4; i++) if (i < nd){ ASSERT(rt[2 + i] == ex[i], "run-time shape == NumPy tile shape (nothing clipped)"); prod *= rt[2 + i]; }
+  ASSERT(rsize == prod, "run-time size == product of the run-time shape");
+  if (t[0] != NA) ASSERT(t[0] == rdim, "fixed_dim == run-time dim");
+  if (t[1] != NA) ASSERT(t[1] == rsize, "fixed_size == run-time size");
+  if (t[2] != NA) ASSERT(rdim <= t[2], "run-time dim <= bounded_dim");
+  if (t[3] != NA) ASSERT(rsize <= t[3], "run-time size <= bounded_size");
+  OBS(r); OBS(rdim); OBS(rsize); OBS(t[2]); OBS(t[3]); REACHED();
+}
+
+/* outer: shape(a) + shape(b), size = size(a) * size(b). OUTK 0: a capacity 4, b capacity 16; 1: swapped */
+#ifndef OUTK
+#define OUTK 0
+#endif
+void h_outer_traits(void){
+  u64 sa[2], sb[2], t[9] = {NA, NA, NA, NA, NA, NA, NA, NA, NA}, rt[6] = {0}; u32 da[16], db[16];
+  u64 capa = OUTK == 0 ? 4 : 16, capb = OUTK == 0 ? 16 : 4;
+  sa[0] = in_u64(1, MAXE); sa[1] = in_u64(1, MAXE); sb[0] = in_u64(1, MAXE); sb[1] = in_u64(1, MAXE); ASSUME(sa[0] * sa[1] <= capa && sb[0] * sb[1] <= capb);
+  in_data(da, 16); in_data(db, 16);
+  int r = OUTK == 0 ? k_trt_outer_h4_h16(sa, da, sb, db, t, rt) : k_trt_outer_h16_h4(sa, da, sb, db, t, rt);
+  ASSERT(r == 1, "the outer view exists");
+  ASSERT(rt[0] == 4 && rt[2] == sa[0] && rt[3] == sa[1] && rt[4] == sb[0] && rt[5] == sb[1], "run-time shape == shape(a) + shape(b)");
+  ASSERT(rt[1] == sa[0] * sa[1] * sb[0] * sb[1], "run-time size == size(a) * size(b) (nothing clipped)");
+  if (t[0] != NA) ASSERT(t[0] == rt[0], "fixed_dim == run-time dim");
+  if (t[1] != NA) ASSERT(t[1] == rt[1], "fixed_size == run-time size");
+  if (t[2] != NA) ASSERT(rt[0] <= t[2], "run-time dim <= bounded_dim");
+  if (t[3] != NA) ASSERT(rt[1] <= t[3], "run-time size <= bounded_size");
+  OBS(r); OBS(rt[1]); OBS(t[3]); OBS(t[1]); REACHED();
+}
